@@ -31,7 +31,7 @@ LZ4_ALPHA = "{0, 1, 2, 16, 20, 15, 31, 240, 255, 64, 254, 79}"
 # direction 1: token lists
 # ---------------------------------------------------------------------------------------
 
-def gen_cases(fmt, tier):
+def gen_cases(fmt, tier, workers=None):
     runs = []
     if fmt == "snappy":
         if tier == "quick":
@@ -46,8 +46,10 @@ def gen_cases(fmt, tier):
             runs = [("Depth = 3\nFullDepth = 1", None)]
         mod = "MC_Lz4Gen"
     cases, results = [], []
-    for consts, flt in runs:
-        r = cl.tlc_gen(mod, consts, what="%s %s" % (mod, consts.replace("\n", " ")))
+    done = cl.parallel({k: (lambda consts=consts: cl.tlc_gen(mod, consts, what="%s %s" % (mod, consts.replace("\n", " ")), workers=workers))
+                        for k, (consts, flt) in enumerate(runs)})
+    for k, (consts, flt) in enumerate(runs):
+        r = done[k]
         results.append(r)
         for c in r.cases:
             items = c["toks"] if fmt == "snappy" else c["seqs"]
@@ -167,7 +169,7 @@ def judge_dir1(chk, fmt, cases, res, faults, leaky):
                 continue
             n_bad += 1
             if got[0] == "0":
-                chk.violation("%s:accepts-invalid:%s" % (dec, b["why"]),
+                chk.violation("%s:accepts-trailing-input" % dec if b.get("trail") else "%s:accepts-invalid:%s" % (dec, b["why"]),
                               "%s decompress returns OK (%s bytes) for an invalid block (%s) derived from %s: stream=%s cap=%d" % (
                                   fmt, got[1], b["why"], items, rope_str(b["s"])[:300], b["cap"]),
                               {"fmt": fmt, "why": b["why"], "stream": rope_str(b["s"]), "cap": b["cap"], "base": items})
@@ -175,6 +177,8 @@ def judge_dir1(chk, fmt, cases, res, faults, leaky):
         # find the stream of the faulting case
         cid = f.case_id
         lb, stream = None, "?"
+        if cid[0] != p:
+            continue
         try:
             i = int("".join(ch for ch in cid[1:].split("b")[0] if ch.isdigit()))
             c = cases[i]
@@ -195,14 +199,14 @@ def judge_dir1(chk, fmt, cases, res, faults, leaky):
 # direction 1b: every byte string over a boundary alphabet
 # ---------------------------------------------------------------------------------------
 
-def bytes_cases(fmt, tier):
+def bytes_cases(fmt, tier, workers=None):
     if fmt == "snappy":
         consts = "MaxLen = %d\nAlphabet = %s\nCaps = {0, 1, 2, 5, 70}" % (3 if tier == "quick" else 4, SNAPPY_ALPHA)
         mod = "MC_SnappyBytes"
     else:
         consts = "MaxLen = %d\nAlphabet = %s\nCaps = {0, 1, 4, 5, 300}" % (4 if tier == "quick" else 5, LZ4_ALPHA)
         mod = "MC_Lz4Bytes"
-    r = cl.tlc_gen(mod, consts, what=mod)
+    r = cl.tlc_gen(mod, consts, what=mod, workers=workers)
     return r.cases, r
 
 
@@ -262,8 +266,7 @@ def judge_bytes(chk, fmt, cases, res, faults, leaky):
             elif j["exp"] == "reject":
                 rej += 1
                 if ok:
-                    why = "trailing-bytes-after-complete-block" if j.get("trail") else j["why"]
-                    chk.violation("%s:accepts-invalid:%s" % (dec, why),
+                    chk.violation("%s:accepts-trailing-input" % dec if j.get("trail") else "%s:accepts-invalid:%s" % (dec, j["why"]),
                                   "%s decompress returns OK (%s bytes: %s) for invalid block %s (cap %s): %s" % (
                                       fmt, got[1], got[2][:40], bytes(c["s"]).hex(), cap, j["why"]), rep)
     for f in faults:
@@ -282,79 +285,129 @@ def judge_bytes(chk, fmt, cases, res, faults, leaky):
 
 
 # ---------------------------------------------------------------------------------------
-# direction 2: carquet-compress -> spec-decode
+# direction 1c: blocks of the reference compressors of PageCodecFull.tla (used by the file-level
+# reference writer): self-checked in TLC, then decoded by the libraries and by carquet
 # ---------------------------------------------------------------------------------------
 
-def dir2_descs(tier):
-    if tier == "quick":
-        consts = ("LitLens = {1, 4, 5, 12, 13, 60, 61, 257, 2100}\nRepOffs = {1, 2, 4, 7, 8, 16, 2047, 2048}\n"
-                  "RepLens = {4, 11, 12, 64, 65, 67, 68, 130, 264}\nPads <- PadNone\nMaxSegs = 3\nMaxTotal = 2700\n"
-                  "Configs <- CfgLz\nCapSels <- CapB")
-    else:
-        consts = ("LitLens = {1, 2, 3, 4, 5, 6, 11, 12, 13, 14, 59, 60, 61, 255, 256, 257, 2100}\n"
-                  "RepOffs = {1, 2, 3, 4, 7, 8, 15, 16, 2047, 2048}\n"
-                  "RepLens = {4, 5, 11, 12, 13, 60, 64, 65, 66, 67, 68, 130, 264, 1000}\nPads <- PadNone\nMaxSegs = 3\nMaxTotal = 4096\n"
-                  "Configs <- CfgLz\nCapSels <- CapB")
-    r = cl.tlc_gen("MC_CodecCases", consts, what="MC_CodecCases (C10 inputs)")
+def pagecodec_cases(tier, workers=None):
+    lens = "{0, 1, 4, 5, 11, 12, 13, 14, 16, 17, 18, 30, 61, 100, 300}" if tier == "quick" else \
+        "{0, 1, 2, 3, 4, 5, 6, 11, 12, 13, 14, 15, 16, 17, 18, 19, 20, 30, 60, 61, 62, 100, 257, 300, 1000, 3000}"
+    r = cl.tlc_gen("MC_PageCodecSelf", 'Lens = %s\nKinds = {"zeros", "int32", "int64", "noise", "mixed"}' % lens,
+                   what="MC_PageCodecSelf", workers=workers)
     return r.cases, r
 
 
-def record(binary, cases):
-    lines = ["r%d rec %s 0 %s" % (i, c["codec"], desc_str(c["desc"])) for i, c in enumerate(cases)]
-    return cl.run_parallel(binary, lines)
+PC_KEYS = (("sl", "snappy"), ("sc", "snappy"), ("zl", "lz4"), ("zc", "lz4"))
 
 
-def validate(fmt, recs, what):
-    """recs: list of (id, xhex, chex). Returns {id: verdict} from TLC."""
-    objs = [{"id": rid, "x": list(common.unhex(x)), "c": list(common.unhex(c))} for rid, x, c in recs]
-    path = cl.write_ndjson(objs)
-    try:
-        mod = "MC_SnappyTrace" if fmt == "snappy" else "MC_Lz4Trace"
-        r = cl.tlc_gen(mod, "Group = 8", env={"CASES": path}, what=what)
-    finally:
-        os.unlink(path)
-    return {v["id"]: v for v in r.cases}, r
+def pagecodec_lines(cases):
+    return ["p%d%s dec %s %d %s" % (i, k, fmt, c["n"], bytes_rope(c[k])) for i, c in enumerate(cases) for k, fmt in PC_KEYS]
 
 
-def dir2(chk, tier, binary, refbin):
-    cases, rgen = dir2_descs(tier)
-    chk.add_tlc(rgen)
-    # spec self-check: blocks produced by libsnappy / liblz4 must validate
-    rres, rfaults, _ = record(refbin, cases)
-    if rfaults:
+def judge_pagecodec(chk, cases, rres, res):
+    n = 0
+    for i, c in enumerate(cases):
+        want = ["0", str(c["n"]), common.hexs(c["x"])]
+        for k, fmt in PC_KEYS:
+            cid = "p%d%s" % (i, k)
+            if rres.get(cid) != want:
+                raise common.InfraError("PageCodecFull.%s block for %d-byte input is not decoded by the system %s library: %s" % (
+                    k, c["n"], fmt, rres.get(cid)))
+            got = res.get(cid)
+            chk.count((fmt, "pagecodec", k, c["x"]), c["n"] > 0)
+            if got is None:
+                continue
+            n += 1
+            rep = {"fmt": fmt, "stream": bytes_rope(c[k]), "cap": c["n"], "expect": common.hexs(c["x"])}
+            if got[0] != "0":
+                chk.violation("%s-dec:rejects-valid:reference-compressor" % fmt, "%s decompress rejects valid block %s" % (fmt, bytes(c[k]).hex()[:300]), rep)
+            elif got != want:
+                chk.violation("%s-dec:wrong-output:reference-compressor" % fmt, "%s decompress of %s gives %s" % (fmt, bytes(c[k]).hex()[:300], got[2][:80]), rep)
+    chk.part("pagecodec-reference-compressor", blocks=n, inputs=len(cases))
+    chk.cov["traces_validated_against_impl"] += n
+
+
+# ---------------------------------------------------------------------------------------
+# direction 2: carquet-compress -> spec-decode
+# ---------------------------------------------------------------------------------------
+
+def dir2_descs(tier, workers=None):
+    if tier == "quick":
+        consts = ("LitLens = {1, 5, 12, 13, 2100}\nRepOffs = {1, 8, 2048}\nRepLens = {4, 12, 67, 264}\n"
+                  "Pads <- PadNone\nMaxSegs = 3\nMaxTotal = 2700\nConfigs <- CfgLz\nCapSels <- CapB")
+    else:
+        consts = ("LitLens = {1, 4, 5, 6, 11, 12, 13, 61, 257, 2100}\nRepOffs = {1, 2, 7, 8, 2047, 2048}\n"
+                  "RepLens = {4, 11, 12, 64, 65, 68, 130, 1000}\nPads <- PadNone\nMaxSegs = 3\nMaxTotal = 4096\n"
+                  "Configs <- CfgLz\nCapSels <- CapB")
+    r = cl.tlc_gen("MC_CodecCases", consts, what="MC_CodecCases (C10 inputs)", workers=workers)
+    return r.cases, r
+
+
+def rec_lines(cases):
+    return ["r%d rec %s 0 %s" % (i, c["codec"], desc_str(c["desc"])) for i, c in enumerate(cases)]
+
+
+def validate(fmt, recs, what, chunk=3000, workers=None):
+    """recs: list of (id, xhex, chex). Returns ({id: verdict} from TLC, [TlcResult])."""
+    mod = "MC_SnappyTrace" if fmt == "snappy" else "MC_Lz4Trace"
+    verd, rs = {}, []
+    for k in range(0, len(recs), chunk):
+        objs = [{"id": rid, "x": list(common.unhex(x)), "c": list(common.unhex(c))} for rid, x, c in recs[k:k + chunk]]
+        path = cl.write_ndjson(objs)
+        try:
+            r = cl.tlc_gen(mod, "Group = 8", env={"CASES": path}, what=what, workers=workers)
+        finally:
+            os.unlink(path)
+        rs.append(r)
+        verd.update({v["id"]: v for v in r.cases})
+    return verd, rs
+
+
+def recs_of(cases, res, fmt):
+    return [("r%d" % i, res["r%d" % i][1], res["r%d" % i][2]) for i, c in enumerate(cases)
+            if c["codec"] == fmt and "r%d" % i in res and res["r%d" % i][0] == "0"]
+
+
+def dir2(chk, cases, rres, rfaults, res, faults, leaky):
+    """cases: descriptors; rres/res: `rec` results of the reference build and of carquet."""
+    if [f for f in rfaults if f.case_id.startswith("r")]:
         raise common.InfraError("reference compressor crashed: " + rfaults[0].signature())
+    W = max(2, common.NCPU // 4)
+    jobs = {}
     for fmt in ("snappy", "lz4"):
-        recs = [("r%d" % i, rres["r%d" % i][1], rres["r%d" % i][2]) for i, c in enumerate(cases)
-                if c["codec"] == fmt and "r%d" % i in rres and rres["r%d" % i][0] == "0"]
-        verd, r = validate(fmt, recs, "reference %s blocks" % fmt)
+        jobs["ref-" + fmt] = (lambda fmt=fmt: validate(fmt, recs_of(cases, rres, fmt), "reference %s blocks" % fmt, workers=W))
+        jobs["impl-" + fmt] = (lambda fmt=fmt: validate(fmt, recs_of(cases, res, fmt), "carquet %s blocks" % fmt, workers=W))
+    done = cl.parallel(jobs)
+    # spec self-check: blocks produced by libsnappy / liblz4 must validate
+    for fmt in ("snappy", "lz4"):
+        verd, _ = done["ref-" + fmt]
+        nref = len(recs_of(cases, rres, fmt))
         badv = [v for v in verd.values() if v["v"] != "ok"]
-        if badv or len(verd) != len(recs):
-            raise common.InfraError("spec self-check: %s.tla does not validate blocks from the system library: %s" % (fmt, badv[:3]))
-        chk.part(fmt + "-ref-selfcheck", blocks=len(recs))
+        if badv or len(verd) != nref or nref == 0:
+            raise common.InfraError("spec self-check: %s.tla does not validate blocks from the system library: %s (%d/%d)" % (
+                fmt, badv[:3], len(verd), nref))
+        chk.part(fmt + "-ref-selfcheck", blocks=nref)
     # the implementation
-    res, faults, leaky = record(binary, cases)
     for f in faults:
+        if not f.case_id.startswith("r"):
+            continue
         i = int(f.case_id[1:])
         chk.violation(cl.fault_sig(cases[i]["codec"] + "-enc", f), "fault in %s compress on %s: %s" % (
             cases[i]["codec"], desc_str(cases[i]["desc"]), f.signature()), {"case": cases[i], "stderr": getattr(f, "stderr", "")[-1500:]})
     for cid in leaky:
-        chk.violation("enc:leak", "leak after compress case", cases[int(cid[1:])])
+        if cid.startswith("r"):
+            chk.violation("enc:leak", "leak after compress case", cases[int(cid[1:])])
     for fmt in ("snappy", "lz4"):
         enc = fmt + "-enc"
-        recs = []
         for i, c in enumerate(cases):
-            if c["codec"] != fmt:
-                continue
             got = res.get("r%d" % i)
-            if got is None:
-                continue
-            if got[0] != "0":
+            if c["codec"] == fmt and got is not None and got[0] != "0":
                 chk.violation("%s:compress-into-bound-failed" % enc, "%s compress into bound failed (status %s) on %s" % (
                     fmt, got[0], desc_str(c["desc"])), c)
-                continue
-            recs.append(("r%d" % i, got[1], got[2]))
-        verd, r = validate(fmt, recs, "carquet %s blocks" % fmt)
-        chk.add_tlc(r)
+        recs = recs_of(cases, res, fmt)
+        verd, rs = done["impl-" + fmt]
+        for r in rs:
+            chk.add_tlc(r)
         if len(verd) != len(recs):
             raise common.InfraError("TLC validated %d of %d %s blocks" % (len(verd), len(recs), fmt))
         stats = {}
@@ -394,27 +447,49 @@ def run(chk, tier, replay):
         "LZ4: blocks that parse and execute but break an end-of-block rule may be accepted (with exactly the spec's bytes) or rejected; "
         "empty input and Snappy varints above 2^31 are not judged",
         "harness/h_codec.c only expands descriptors, copies bytes and prints status/length/bytes"]
-    cl.selfcheck(chk, tier)
-
-    for fmt in ("snappy", "lz4"):
-        cases, rs = gen_cases(fmt, tier)
-        for r in rs:
-            chk.add_tlc(r)
-        lines = dir1_lines(fmt, cases)
-        rres, rfaults, _ = cl.run_parallel(refbin, lines, leaks=False)
-        refcheck_dir1(fmt, cases, rres, rfaults)
-        res, faults, leaky = cl.run_parallel(binary, lines)
-        judge_dir1(chk, fmt, cases, res, faults, leaky)
-
-        bcases, r = bytes_cases(fmt, tier)
+    # 1. everything TLC generates, concurrently (each job has its own JVM)
+    W = max(2, common.NCPU // 4)
+    gen = cl.parallel({
+        "self": lambda: cl.selfcheck_run(tier, workers=W),
+        "gen-snappy": lambda: gen_cases("snappy", tier, workers=W),
+        "gen-lz4": lambda: gen_cases("lz4", tier, workers=W),
+        "bytes-snappy": lambda: bytes_cases("snappy", tier, workers=W),
+        "bytes-lz4": lambda: bytes_cases("lz4", tier, workers=W),
+        "descs": lambda: dir2_descs(tier, workers=W),
+        "pagecodec": lambda: pagecodec_cases(tier, workers=W)})
+    for r in gen["self"]:
         chk.add_tlc(r)
-        lines = bytes_lines(fmt, bcases)
-        rres, rfaults, _ = cl.run_parallel(refbin, lines, leaks=False)
-        refcheck_bytes(fmt, bcases, rres, rfaults)
-        res, faults, leaky = cl.run_parallel(binary, lines)
-        judge_bytes(chk, fmt, bcases, res, faults, leaky)
-
-    dir2(chk, tier, binary, refbin)
+    chk.part("spec-selfcheck", states=sum(r.distinct for r in gen["self"]))
+    lines = []
+    for fmt in ("snappy", "lz4"):
+        for r in gen["gen-" + fmt][1]:
+            chk.add_tlc(r)
+        chk.add_tlc(gen["bytes-" + fmt][1])
+        lines += dir1_lines(fmt, gen["gen-" + fmt][0]) + bytes_lines(fmt, gen["bytes-" + fmt][0])
+    descs = gen["descs"][0]
+    chk.add_tlc(gen["descs"][1])
+    lines += rec_lines(descs)
+    pcases = gen["pagecodec"][0]
+    chk.add_tlc(gen["pagecodec"][1])
+    lines += pagecodec_lines(pcases)
+    # 2. the same cases on the system libraries (spec self-check) and on carquet
+    half = max(2, cl.NPROC // 2)
+    ran = cl.parallel({"ref": lambda: cl.run_parallel(refbin, lines, leaks=False, nproc=half),
+                       "impl": lambda: cl.run_parallel(binary, lines, nproc=cl.NPROC)})
+    rres, rfaults, _ = ran["ref"]
+    res, faults, leaky = ran["impl"]
+    for fmt in ("snappy", "lz4"):
+        p = fmt[0]
+        refcheck_dir1(fmt, gen["gen-" + fmt][0], rres, [f for f in rfaults if f.case_id[0] == p])
+        refcheck_bytes(fmt, gen["bytes-" + fmt][0], rres, [f for f in rfaults if f.case_id[0] == p.upper()])
+    for fmt in ("snappy", "lz4"):
+        p = fmt[0]
+        judge_dir1(chk, fmt, gen["gen-" + fmt][0], res, [f for f in faults if f.case_id[0] == p], [c for c in leaky if c[0] == p])
+        judge_bytes(chk, fmt, gen["bytes-" + fmt][0], res, [f for f in faults if f.case_id[0] == p.upper()],
+                    [c for c in leaky if c[0] == p.upper()])
+    judge_pagecodec(chk, pcases, rres, res)
+    # 3. carquet's compressors, validated by TLC
+    dir2(chk, descs, rres, rfaults, res, faults, leaky)
     chk.cov["rule"] = ("spec->impl: one evaluation per (block, capacity) replayed on carquet's decompressor; distinct = distinct "
                        "(token list | derived invalid block | byte string x capacity); non-trivial = more than one element or an extended "
                        "length form, every invalid block, every judged byte string. impl->spec: one per compressed block validated by TLC, "
